@@ -26,6 +26,8 @@ def c18(tier):
     # splinetable_free deletes the table, whose destructor releases through clear(): full field coverage, no early exit (TS-4/TS-6)
     ts.reset_fn_ok(P, C)
     ed.ed4(P, C)
+    # the write wrappers release the FITS handle exactly once, also when the final close fails (ED-2: guard disarmed before the close)
+    ed.run(P, C)
     C.extra["units"] = sorted(P.units.keys())
     C.extra["functions_analysed"] = len(P.functions)
     return C.finish()
@@ -115,6 +117,7 @@ def c20(tier):
     selftest.run(P, C, ('ts2', 'nl1'))
     ts.run_c20(P, C)
     ts.ts7(P, C)
+    ts.ts8(P, C)
     ts.ts3b(P, C)
     nl.nl1(P, C)
     nl.nl2(P, C)
@@ -219,6 +222,8 @@ def c16(tier):
     ts.ts2(P, C, only=("write_key", "remove_key"), rule_floor=2)
     cw.cw1(P, C, only=("splinetable_get_key", "splinetable_read_key", "splinetable_write_key"))
     C.extra["units"] = sorted(P.units.keys())
+    # accepted entries survive serialisation: the writer appends them, it never searches-and-replaces by their names
+    fs.fs9(P, C)
     return C.finish()
 
 
@@ -307,6 +312,8 @@ def c02(tier):
     dp.cl4(P, C)
     dp.cl6(P, C)
     dp.cl8(P, C)
+    # the evaluator's entry points are clones of the table's (same scratch precision, same kernels)
+    dp.cl2(P, C)
     # the evaluator's derivative and gradient entry points reach the cores through the dispatch table
     dp.dp(P, C)
     dp.dp(P, C, variant="driver-noevaltmpl")
@@ -358,6 +365,8 @@ def c11(tier):
     # anchored in modify_factor / recompute_factor: the factor-update path must not read moved or released CHOLMOD arrays
     sp.sp1(P, C, floor=3)
     sp.sp2(P, C)
+    # 'terminates': the one structural part — no trial step length 0 besides the reference
+    sg.ls1(P, C)
     C.extra["units"] = sorted(P.units.keys())
     C.extra["not_decided"] = ["KKT conditions", "termination", "nnls_lawson_hanson", "nnls_normal_block", "nnls_normal_block_updown"]
     return C.finish()
@@ -378,6 +387,7 @@ def c14(tier):
     uw.uw4(P, C)
     uw.uw5(P, C)
     uw.uw6(P, C)
+    uw.uw7(P, C)
     uw.vg4(P, C)
     ts.ts2(P, C, only=("convolve",), rule_floor=1)
     cw.cw1(P, C, only=("splinetable_convolve",))
@@ -436,6 +446,7 @@ def c06(tier):
     ax.fs5b(P, C)
     ax.fs4(P, C)
     C.extra["units"] = sorted(P.units.keys())
+    fs.fs9(P, C)
     return C.finish()
 
 
@@ -473,6 +484,8 @@ def c09(tier):
                            "CHOLMOD's add/ssmult/transpose/speye follow their documentation"])
     P = core.load(tier=tier, extra_units=selftest.UNITS)
     gw.run(P, C)
+    # the data term: the basis matrix of each dimension (GW-4 treats bsplinebasis as given)
+    ge.ge3(P, C)
     C.extra["units"] = sorted(P.units.keys())
     C.extra["not_decided"] = ["optimality", "polynomial reproduction", "index arithmetic of box/slicemultiply/kronecker_product", "divided_diffs formula"]
     return C.finish()
